@@ -3,6 +3,7 @@
 from __future__ import annotations
 
 from asyncio import (
+    CancelledError,
     Event,
     Future,
     Queue,
@@ -76,6 +77,7 @@ class StreamItemQueue:
         self._producer_cancelled = False
         self._pending_futures: set[Future[WorkResult]] = set()
         self._aborted = False
+        self._failed = False
         self._finished = False
         self._stopped = False
         if eager:
@@ -102,6 +104,7 @@ class StreamItemQueue:
             # settle the pending item futures and clean up the source
             # before delivering the failure
             self._aborted = True
+            self._failed = True
             await self._settle_pending()
             on_abort = self._on_abort
             if on_abort is not None:
@@ -143,6 +146,13 @@ class StreamItemQueue:
             if isfuture(entry):
                 try:
                     entry = await entry
+                except CancelledError:
+                    if not (self._failed and entry.cancelled()):
+                        raise  # the consumer itself has been cancelled
+                    # The pending item has been cancelled because the stream
+                    # failed: skip the remaining items and deliver the failure.
+                    while not isinstance(entry, _ErrorEntry):
+                        entry = await entries.get()
                 except Exception:
                     await self._cleanup()
                     raise
@@ -170,7 +180,7 @@ class StreamItemQueue:
                 if isfuture(next_entry):
                     try:
                         next_entry = next_entry.result()
-                    except Exception:
+                    except (CancelledError, Exception):
                         held = next_entry  # re-raise when delivered as head
                         break
                 batch.append(next_entry)
